@@ -134,6 +134,7 @@ var propDrivers = map[string]*propDriver{
 		notes: []string{"the struct-level rules are proved for all values; text-to-fields parsing and the ecosystems whose comparison loops are outside govc's summaries are covered by the per-ecosystem bounded API obligations <eco>.(*Version).Compare.c03[...] (stand-ins, never counted as proved)"}},
 	"C07": {extra: func(w *World, tier string) []VC { return w.sortVCs() },
 		notes: []string{"the contract of slices.SortFunc (the result is a permutation of the input, sorted under a comparison that is a total preorder) is an assumed library contract; the total-preorder premise is C01"}},
+	"C17": {extra: func(w *World, tier string) []VC { return w.versValidVC() }},
 	"C16": {extra: func(w *World, tier string) []VC { return w.versInvVCs(tier) },
 		notes: []string{"C16 is a bounded stand-in (the real vers.Contains on a range and every re-spelling of it); never counted as proved"}},
 	"C10": {extra: func(w *World, tier string) []VC { return w.refOrderVCs("C10") }},
@@ -333,6 +334,19 @@ func checkCmd(args []string) int {
 		return k == "post" || strings.HasPrefix(k, "law.") || k == "bounded.law" || k == "lemma" || k == "unsupported"
 	}
 	conditional := map[string]string{}
+	// a call precondition that is not discharged taints the other obligations of the same function: their VCs assumed
+	// the callee's postconditions at that call site
+	badPre := map[string]string{}
+	for _, r := range results {
+		if r.vc.Kind == "pre" && r.res.Status != "unsat" && badPre[r.vc.Fn] == "" {
+			badPre[r.vc.Fn] = r.vc.Name
+		}
+	}
+	for _, r := range results {
+		if !r.vc.ExpectSat && r.vc.Kind != "pre" && r.res.Status == "unsat" && badPre[r.vc.Fn] != "" && r.vc.Run == nil {
+			conditional[r.vc.Name] = badPre[r.vc.Fn]
+		}
+	}
 	for changed := true; changed; {
 		changed = false
 		for _, r := range results {
@@ -584,6 +598,17 @@ func condForBaseline(results []vcResult, r vcResult) bool {
 	cond := map[string]bool{}
 	isPremiseKind := func(k string) bool {
 		return k == "post" || strings.HasPrefix(k, "law.") || k == "bounded.law" || k == "lemma" || k == "unsupported"
+	}
+	badPre := map[string]bool{}
+	for _, x := range results {
+		if x.vc.Kind == "pre" && x.res.Status != "unsat" {
+			badPre[x.vc.Fn] = true
+		}
+	}
+	for _, x := range results {
+		if !x.vc.ExpectSat && x.vc.Kind != "pre" && x.res.Status == "unsat" && badPre[x.vc.Fn] && x.vc.Run == nil {
+			cond[x.vc.Name] = true
+		}
 	}
 	for changed := true; changed; {
 		changed = false
